@@ -27,8 +27,12 @@ pub fn make(scheme: SchemeType, n: usize, qs: &[u64], t: u64, expand: bool, spec
     if let Some(sp) = special_prime { parms = parms.set_use_special_prime_for_encryption(sp); }
     let ctx = HeContext::new(parms, expand, SecurityLevel::None);
     if !ctx.parameters_set() { return None; }
-    let keygen = KeyGenerator::new(ctx.clone());
-    let pk = keygen.create_public_key(false);
+    // key generation on parameters the context ACCEPTED must not fail: a panic here is reported as a failing case of whatever property is running
+    let made = std::panic::catch_unwind(std::panic::AssertUnwindSafe(|| { let keygen = KeyGenerator::new(ctx.clone()); let pk = keygen.create_public_key(false); (keygen, pk) }));
+    let (keygen, pk) = match made { Ok(x) => x, Err(_) => {
+        let m = crate::util::LAST_PANIC.with(|p| p.borrow().clone());
+        println!("!FAIL setup_keygen {} {} {} {} :: key generation on accepted parameters panicked: {} # setup-panic", scheme_name(scheme), n, fl(qs), t, m.replace('\n', " "));
+        return None; } };
     let encryptor = Encryptor::new(ctx.clone()).set_public_key(pk).set_secret_key(keygen.secret_key().clone());
     let decryptor = Decryptor::new(ctx.clone(), keygen.secret_key().clone());
     let evaluator = Evaluator::new(ctx.clone());
